@@ -49,6 +49,13 @@ class _F64(_np.float64):
         return _np.float64(x)
 
 
+class _I64(_np.int64):
+    def __new__(cls, x=0):
+        if is_sym(x):
+            return x
+        return _np.int64(x)
+
+
 def _is_float_dt(dtype):
     return dtype is None or dtype is float or (isinstance(dtype, type) and issubclass(dtype, _np.float64))
 
@@ -290,6 +297,7 @@ def _rows_equal(r1, r2):
 
 
 NpProxy.float64 = _F64
+NpProxy.int64 = _I64
 NPX = NpProxy()
 
 
@@ -331,6 +339,19 @@ class patched:
 
 
 _MISSING = object()
+
+
+def sym_range(*args):
+    """range() whose bounds may be symbolic Ints with a concrete length."""
+    if not any(is_sym(a) for a in args):
+        return builtins.range(*args)
+    if len(args) == 1:
+        lo, hi = 0, args[0]
+    else:
+        lo, hi = args[0], args[1]
+    n = (hi - lo)
+    n = n.__index__() if is_sym(n) else int(n)
+    return [lo + i for i in builtins.range(max(n, 0))]
 
 
 def sym_float(x):
